@@ -324,7 +324,7 @@ def funcinfo(proj, qualname, cname=None, real='double', select=None, may_throw=N
     cls, name = qualname.split('::')
     mi = method_from_header(proj, cls, name, real, select, arity)
     ret = mi.ret_text
-    ret_ct = 'void' if ret == 'void' else X.map_type(ret, real)[0]
+    ret_ct = 'void' if ret in ('void', '') else X.map_type(ret, real)[0]   # '' : a constructor
     fi = X.FuncInfo(cname or qualname.replace('::', '_'), mi.params, ret_ct,
                     is_method=not mi.is_static, is_const=mi.is_const, cls=cls)
     fi.qualname = qualname
@@ -382,6 +382,22 @@ def extract_function(proj, fi, functable, real='double', srcrel=None, select=Non
         fd = X.find_function_def(clean, fi.qualname, select)
         body_txt = fd.body
         template_T_def = getattr(fd, 'template_T', False)
+        if fd.init_list.strip():
+            # R11: the constructor's member-initialiser list becomes assignments, executed in the order the members are DECLARED
+            # in the class (the C++ rule), placed on the line of the opening brace
+            ci0 = proj.classinfo(cls, real)
+            inits = {}
+            for item in X.split_top(fd.init_list):
+                im = re.match(r'\s*(\w+)\s*\((.*)\)\s*$', item, re.S)
+                if not im:
+                    raise ExtractError('constructor initialiser %r not of the form member(expr)' % item.strip())
+                inits[im.group(1)] = ' '.join(im.group(2).split())
+            unknown = [k for k in inits if k not in ci0.members]
+            if unknown:
+                raise ExtractError('constructor initialises %s which are not data members (base class / delegating constructor?)' % unknown)
+            stmts = ' '.join('%s = %s;' % (k, inits[k]) for k in ci0.members if k in inits)
+            body_txt = '{ ' + stmts + body_txt[1:]
+            report.hit('R11.ctor_init_list', len(inits))
         line_body, line_first, line_last = fd.line_body, fd.line_first, fd.line_last
         # parameter NAMES in the definition may differ from the header: use the definition's
         dparams = X.parse_params(fd.params_text, real)
@@ -545,6 +561,7 @@ def raw_def_text(proj, qualname, select=None, srcrel=None):
         pass
     try:
         clean = proj.clean(srcrel or source_of(cls))
-        return X.find_function_def(clean, qualname, select).body
+        fd = X.find_function_def(clean, qualname, select)
+        return fd.init_list + fd.body
     except Exception:
         return ''
